@@ -314,3 +314,13 @@ class QFault:
     sub: List[QCode] = field(default_factory=list, metadata={"type": "Element"})
     toks: List[QCode] = field(default_factory=list, metadata={"type": "Element", "tokens": True})
     kind: Optional[QCode] = field(default=None, metadata={"type": "Attribute"})
+
+
+@dataclass
+class NilChoices:
+    """a compound field whose FIRST nillable choice is a token list (default_factory=list, as generated code has it) and
+    whose second is a plain nillable value: None belongs to the plain one, an empty list to the token list"""
+
+    vals: List[Union[None, int, List[str]]] = field(default_factory=list, metadata={
+        "type": "Elements", "choices": ({"name": "toks", "type": List[str], "tokens": True, "nillable": True, "default_factory": list},
+                                        {"name": "n", "type": Optional[int], "nillable": True})})
